@@ -10,6 +10,7 @@ import (
 	"time"
 
 	"github.com/IrineSistiana/mosproxy/internal/dnsmsg"
+	"github.com/IrineSistiana/mosproxy/internal/upstream"
 	"github.com/IrineSistiana/mosproxy/internal/upstream/transport"
 	"github.com/IrineSistiana/mosproxy/verif/internal/gen"
 	"github.com/IrineSistiana/mosproxy/verif/internal/scripted"
@@ -210,6 +211,144 @@ func c05StallOne(c *Ctx, idx, cutRel int, idle time.Duration) {
 				map[string]any{"idx": idx, "cut_rel": cutRel, "idle_ms": idle.Milliseconds()})
 		default:
 			c.Ev.Count("stall_exchange_returned_genuine_reply", 1)
+		}
+	}
+}
+
+// c05Fallback: the shared UDP socket of a udp:// upstream (UDP with TCP retry) under concurrent
+// callers, a third of whose replies are truncated while nothing accepts the TCP retry (refused,
+// or accepted and reset). Whatever an exchange returns - C16 says what it may return - the message
+// is the caller's own: it carries the caller's id and question and the nonce of a reply the server
+// sent for that question, and it stays like that while the caller holds it (a message that the
+// transport released as well is overwritten by the next reply read from the socket).
+func c05Fallback(c *Ctx) {
+	for variant := 0; variant < 2; variant++ {
+		l, u, port, err := scripted.ListenTCPUDP()
+		if err != nil {
+			c.Inconclusive("c05 fallback: listen: " + err.Error())
+			return
+		}
+		u.SetReadBuffer(2 << 20)
+		if variant == 0 {
+			l.Close() // connection refused
+		} else {
+			go func() { // accepted, then reset
+				for {
+					cn, err := l.Accept()
+					if err != nil {
+						return
+					}
+					cn.(*net.TCPConn).SetLinger(0)
+					cn.Close()
+				}
+			}()
+		}
+		srv := scripted.NewServer(func(q *scripted.Query) scripted.Action {
+			if len(q.Name) > 2 && q.Name[:2] == "tc" {
+				return scripted.Action{Tag: "udp-tc", TC: true, Leg: scripted.LegUDP}
+			}
+			return scripted.Action{Tag: "udp-ok", Leg: scripted.LegUDP}
+		})
+		srv.ServePacket(u)
+		up, err := upstream.NewUpstream(fmt.Sprintf("udp://127.0.0.1:%d", port), upstream.Opt{})
+		if err != nil {
+			c.Inconclusive("c05 fallback: NewUpstream: " + err.Error())
+			srv.Close()
+			l.Close()
+			return
+		}
+		type held struct {
+			name          string
+			id, gotID     uint16
+			qname, qname2 string
+			nonce, nonce2 uint64
+			gotID2        uint16
+			tc            bool
+		}
+		var mu sync.Mutex
+		var got []held
+		var failed int
+		var wg sync.WaitGroup
+		per := c.N(60, 400)
+		for g := 0; g < 8; g++ {
+			wg.Add(1)
+			go func(g int) {
+				defer wg.Done()
+				r := gen.New(c.Seed, fmt.Sprintf("c05fb/%d", variant), g)
+				for k := 0; k < per; k++ {
+					kind := "ok"
+					if r.P(0.35) {
+						kind = "tc"
+					}
+					name := fmt.Sprintf("%s-%d-%d-%d.vh.", kind, variant, g, k)
+					id := uint16(r.Intn(65536))
+					ctx, cancel := context.WithTimeout(context.Background(), 2*time.Second)
+					m, err := up.ExchangeContext(ctx, scripted.BuildQuery(id, name, 28, 1))
+					cancel()
+					if m == nil || err != nil {
+						mu.Lock()
+						failed++
+						mu.Unlock()
+						if m != nil {
+							dnsmsg.ReleaseMsg(m)
+						}
+						continue
+					}
+					// reading a message that somebody else resets at the same time may trip over a nil
+					// record: that is an observation (the message changed), not a harness failure
+					inspect := func() (mid uint16, qn string, nonce uint64) {
+						defer func() {
+							if recover() != nil {
+								mid, qn, nonce = 0, "<message torn while read>", 0
+							}
+						}()
+						mid = m.Header.ID
+						nonce, _, _ = upNonce(m)
+						qn, _, _, _ = upQuestion(m)
+						return
+					}
+					h := held{name: name, id: id, tc: m.Header.Truncated}
+					h.gotID, h.qname, h.nonce = inspect()
+					time.Sleep(time.Duration(r.Range(100, 1500)) * time.Microsecond)
+					h.gotID2, h.qname2, h.nonce2 = inspect()
+					func() {
+						defer func() { recover() }()
+						dnsmsg.ReleaseMsg(m)
+					}()
+					mu.Lock()
+					got = append(got, h)
+					mu.Unlock()
+				}
+			}(g)
+		}
+		wg.Wait()
+		time.Sleep(5 * time.Millisecond)
+		snap := srv.Snapshot()
+		up.Close()
+		srv.Close()
+		l.Close()
+		nonceFor := map[uint64]string{}
+		for i := range snap.Replies {
+			rp := &snap.Replies[i]
+			if rp.Query >= 0 && rp.Query < len(snap.Queries) {
+				nonceFor[rp.Nonce] = snap.Queries[rp.Query].Name
+			}
+		}
+		vname := []string{"refused", "reset"}[variant]
+		c.Ev.Eval(len(got) + failed)
+		c.Ev.Count("fallback_exchanges_failed:"+vname, int64(failed))
+		c.Ev.Count("fallback_exchanges_returned_a_message:"+vname, int64(len(got)))
+		c.Ev.Distinct("fallback", vname, failed > 0, len(got) > 0)
+		for _, h := range got {
+			cs := map[string]any{"fn": "c05Fallback", "variant": vname, "name": h.name}
+			switch {
+			case h.gotID != h.id || h.qname != h.name || nonceFor[h.nonce] != h.name:
+				c.Violation("fallback:returned-message-not-own-reply:"+vname, fmt.Sprintf("udp upstream whose TCP side is %s: the exchange for %q (id %d) returned a message with id %d, question %q and a nonce the server issued for %q (truncated flag %v)", vname, h.name, h.id, h.gotID, h.qname, nonceFor[h.nonce], h.tc), cs)
+				return
+			case h.gotID2 != h.gotID || h.qname2 != h.qname || h.nonce2 != h.nonce:
+				c.Violation("fallback:returned-message-changed-while-held:"+vname, fmt.Sprintf("udp upstream whose TCP side is %s: the message returned for %q changed while the caller held it (id %d -> %d, question %q -> %q): it is owned by somebody else as well", vname, h.name, h.gotID, h.gotID2, h.qname, h.qname2), cs)
+				return
+			}
 		}
 	}
 }
